@@ -164,6 +164,7 @@ func checkC08(c *Ctx, r *Report) {
 		"files are written only by the spec writer, the routes writer and the dump command")
 
 	// C08.c config sections copied
+	checkEnumMembersTyped(c, r, "C08.b")
 	checkInfoCopied(c, r, "C08.c", g30, g31)
 	// security/model/controller sub-generators are on every success path
 	for _, sub := range []string{"GenerateSecuritySpec", "GenerateModelsSpec", "GenerateControllersSpec"} {
@@ -606,4 +607,44 @@ func checkManagerPassThrough(c *Ctx, r *Report, clause string) {
 		viol = fmt.Sprintf("expected one call of each emitter in %s, found %d", gm, n)
 	}
 	r.add(clause, "fieldflow", gm+":pass-through", "both emitters receive the pipeline's controllers, models and configuration themselves", []string{gm}, sites, viol)
+}
+
+// checkEnumMembersTyped: in both converters, the arm that fills `enum` for an integer-typed
+// schema parses its members as integers only (and the number arm as numbers): a member of
+// another JSON type than the schema's `type` makes every instance invalid.
+func checkEnumMembersTyped(c *Ctx, r *Report, clause string) {
+	w := c.W
+	for _, fk := range []string{"generator/swagen/swagen30.BuildSchemaValidation", "generator/swagen/swagen31.BuildSchemaValidationV31"} {
+		fi := need(c, r, clause, fk)
+		if fi == nil {
+			continue
+		}
+		viol := ""
+		var sites []string
+		n := 0
+		for _, a := range w.converterArms(fi) {
+			isEnum := false
+			for _, t := range a.Target {
+				if t == "enum" {
+					isEnum = true
+				}
+			}
+			if !isEnum || (a.Branch != "integer" && a.Branch != "number") {
+				continue
+			}
+			n++
+			sites = append(sites, w.pos(a.Pos))
+			for _, p := range a.Parse {
+				ok := (a.Branch == "integer" && p == "int-literal") || (a.Branch == "number" && (p == "float-literal" || p == "number"))
+				if !ok {
+					viol = fmt.Sprintf("%s: the %s arm for %s schemas also parses members as %s: the emitted enum can hold a member of another JSON type than the schema's `type` (e.g. 2.5 in an integer enum), which no instance can satisfy", w.pos(a.Pos), a.Label, a.Branch, p)
+				}
+			}
+		}
+		if n < 2 {
+			viol = fmt.Sprintf("expected the integer and number enum arms in %s, found %d", fk, n)
+			sites = []string{w.pos(fi.Decl.Pos())}
+		}
+		r.add(clause, "vocabulary", fk+":enum-members-typed", "enum members of integer / number schemas are parsed as that type only", []string{fk}, sites, viol)
+	}
 }
